@@ -40,6 +40,25 @@ class EnumVal(int):
 EXT_INT_CONSTS = {"socket.IPPROTO_TCP": 6, "socket.IPPROTO_UDP": 17}
 
 
+def _const_int(node) -> t.Optional[int]:
+    """value of an integer constant expression (literals combined with + - * | & << >> and unary -/~)"""
+    if isinstance(node, ast.Constant) and isinstance(node.value, int) and not isinstance(node.value, bool):
+        return node.value
+    if isinstance(node, ast.UnaryOp) and isinstance(node.op, (ast.USub, ast.Invert, ast.UAdd)):
+        v = _const_int(node.operand)
+        return None if v is None else (-v if isinstance(node.op, ast.USub) else ~v if isinstance(node.op, ast.Invert) else v)
+    if isinstance(node, ast.BinOp):
+        a, b = _const_int(node.left), _const_int(node.right)
+        if a is None or b is None:
+            return None
+        ops = {ast.Add: lambda x, y: x + y, ast.Sub: lambda x, y: x - y, ast.Mult: lambda x, y: x * y, ast.BitOr: lambda x, y: x | y,
+               ast.BitAnd: lambda x, y: x & y, ast.LShift: lambda x, y: x << y if 0 <= y < 64 else None,
+               ast.RShift: lambda x, y: x >> y if 0 <= y < 64 else None}
+        f = ops.get(type(node.op))
+        return f(a, b) if f else None
+    return None
+
+
 def enum_members(prog, clsqual):
     """{name: EnumVal} for an (Int)Enum class of the package, None for other classes"""
     ci = prog.classes.get(clsqual)
@@ -47,8 +66,9 @@ def enum_members(prog, clsqual):
         return None
     out = {}
     for name, node in ci.consts.items():
-        if isinstance(node, ast.Constant) and isinstance(node.value, int):
-            out[name] = EnumVal(node.value, clsqual, name)
+        cv = _const_int(node)
+        if cv is not None:
+            out[name] = EnumVal(cv, clsqual, name)
         else:
             d = dotted(node)
             full = prog.expand_alias(ci.module, d) if d else None
